@@ -88,6 +88,14 @@ Proof.
 Qed.
 End Processor.
 
+Lemma src_cfi_ok : src_cfi = canon_cfi /\ src_cfi_x86 = cfi_of x86_name src_cfi /\ src_cfi_module = CfiModuleOfCalleeInstruction /\
+  forall a ops k, In (a, ops) src_cfi -> cfi_lookups ops src_cfi_module (Some k) = [(EWalk, k)] /\
+                                         cfi_lookups ops src_cfi_module None = [].
+Proof.
+  split; [reflexivity|]. split; [reflexivity|]. split; [reflexivity|]. intros a ops k H.
+  cbn in H. repeat (destruct H as [H|H]; [inversion H; subst; split; reflexivity|]). contradiction.
+Qed.
+
 Lemma src_provider_users_ok : src_provider_users = canon_provider_users.
 Proof. reflexivity. Qed.
 
